@@ -53,7 +53,8 @@ def required(tier):
            'mtom:binding', 'mtom:not-binding', 'profile:monotone-checked',
            'cruise-flag-type:bool', 'cruise-flag-type:int', 'cruise-flag-type:float',
            'segment-distance:scalar', 'segment-distance:per-segment:constant_final',
-           'segment-distance:per-segment:constant_initial']
+           'segment-distance:per-segment:constant_initial', 'altitude:below-sea-level',
+           'profile:more-than-257-points:per-segment:constant_final']
     return {'classes': cl, 'evaluations': 1000}
 
 
@@ -89,7 +90,9 @@ def gen_profile(rng, p):
     import numpy as np
     from vlib.refs import isa
 
-    n = rng.choice([3, 5, 10, 40, 120, 200])
+    n = rng.choice([3, 5, 10, 40, 120, 200, 258, 300, 700])
+    # airfield elevation: usually around sea level, sometimes below it (Dead Sea, Death Valley)
+    field = rng.choice([300.0, 300.0, 0.0, rng.uniform(-420.0, -1.0), rng.uniform(0.0, 2500.0)])
     top = {'Jet': rng.uniform(6000, 12500), 'Turboprop': rng.uniform(3000, 8000),
            'Piston': rng.uniform(1000, 4000)}[p['engine_type']]
     vcr = {'Jet': rng.uniform(180, 250), 'Turboprop': rng.uniform(90, 160),
@@ -100,7 +103,7 @@ def gen_profile(rng, p):
     for i in range(n):
         if i < nc:
             f = i / max(1, nc)
-            alt.append(300 + (top - 300) * f)
+            alt.append(field + (top - field) * f)
             v.append(vcr * (0.55 + 0.45 * f))
             rocd.append(rng.uniform(2, 18) * (0.3 if p['engine_type'] != 'Jet' else 1))
             cruise.append(False)
@@ -111,7 +114,7 @@ def gen_profile(rng, p):
             cruise.append(rng.random() < 0.9)
         else:
             f = (i - (n - nd) + 1) / max(1, nd)
-            alt.append(top - (top - 300) * f)
+            alt.append(top - (top - field) * f)
             v.append(vcr * (1.0 - 0.45 * f))
             rocd.append(-rng.uniform(2, 25) * (0.3 if p['engine_type'] != 'Jet' else 1))
             cruise.append(False)
@@ -134,7 +137,8 @@ def gen_profile(rng, p):
     return dict(temperature=T, altitude=alt, v_tas=v, rocd=np.array(rocd), acceleration=acc,
                 in_cruise=flags, groundspeed=gs, segment_distance=dx), \
         {'n': n, 'dT': dT, 'hot': dT > p['c_tc4'] + 1 and p['c_tc5'] > 0,
-         'mixed_cruise': 0 < sum(cruise) < n, 'flags': flag_kind, 'dx_kind': dx_kind}
+         'mixed_cruise': 0 < sum(cruise) < n, 'flags': flag_kind, 'dx_kind': dx_kind,
+         'field_elevation': field}
 
 
 def run_shard(spec, rec):
@@ -288,6 +292,12 @@ def run_shard(spec, rec):
                 if np.asarray(vv).dtype != b.dtype or not np.array_equal(np.asarray(vv), b):
                     raise Mismatch('the fuel-burn model modified one of its input arrays',
                                    {'input': kk, **desc})
+            if float(np.min(prof['altitude'])) < 0:
+                rec.cls('altitude:below-sea-level')
+            if n >= 258:
+                rec.cls('profile:more-than-257-points')
+                if pd_['dx_kind'] == 'per-segment' and mode == 'constant_final':
+                    rec.cls('profile:more-than-257-points:per-segment:constant_final')
             rec.cls(f'cruise-flag-type:{pd_["flags"]}', f'segment-distance:{pd_["dx_kind"]}',
                     f'segment-distance:{pd_["dx_kind"]}:{mode}')
             if mode in ('rf_fraction', 'rf_value'):
